@@ -4,6 +4,7 @@
 D=$1; shift
 cd "$(dirname "$0")/.."
 W=/tmp/wt_verify
+[ -d $W ] || git -C /repo worktree add -q --detach $W HEAD   # scratch worktree, removed again with: git -C /repo worktree remove --force $W
 git -C $W checkout -q -- . && git -C $W clean -fdq
 git -C $W apply "$(realpath $D/patch.diff)" || { echo "patch does not apply"; exit 3; }
 T=$(mktemp -d); (cd $W && PYTHONPATH=$W/src HYPOTHESIS_STORAGE_DIRECTORY=$T /venv/bin/python -m pytest -q -p no:cacheprovider 2>&1 | tail -1); rm -rf $T
